@@ -2324,6 +2324,8 @@ def VectorObject34DType_rotate_euler(v, phi, theta, psi, order="zxz"):
     ):
         if isinstance(order, str):
             pass
+        elif isinstance(order, numba.types.Omitted):
+            order = order.value
         elif isinstance(order, numba.types.StringLiteral):
             order = order.literal_value
         elif isinstance(order, (numba.types.UnicodeType, numba.types.Bytes)):
